@@ -431,6 +431,146 @@ Definition run_request (P : params) (W : world) (ri : rinfo) : list event :=
   st_log st2 ++ [EFinal o2 (snap (st_attrs st2)) (aget hn_exception (st_attrs st2))].
 
 (* ------------------------------------------------------------------ *)
+(* the same pipeline with view bodies that may raise PredicateMismatch: for _call_view and MultiView.__call__ such
+   a body is a predicate mismatch -- the search goes on after the body ran (its events and attribute changes
+   stay).  [comps_loop] follows _call_view over the components found by _find_views:
+   - a single view (secure: derived view = predicates, secured_view, body; not secure: __call_permissive__, with
+     the predicate check of the repaired text) -- its own PredicateMismatch object becomes [pme];
+   - a MultiView: secure -> __call__ (every view in turn, PredicateMismatch swallowed, a NEW PredicateMismatch at
+     the end); not secure -> __call_permissive__ (match by predicates, then the one body; its PredicateMismatch
+     leaves the MultiView);
+   - "if pme is not None: raise pme" re-raises the LAST one.
+   Proofs/C14_d.v: when no body outcome is a PredicateMismatch this is the pipeline above. *)
+Definition cn_PredicateMismatch : text :=
+  [80; 114; 101; 100; 105; 99; 97; 116; 101; 77; 105; 115; 109; 97; 116; 99; 104]%N.
+Definition is_pm (W : world) (o : outcome) : option N :=
+  match o with Raise e => if isa W cn_PredicateMismatch e then Some e else None | _ => None end.
+
+Fixpoint views_loop (P : params) (W : world) (deny : bool) (site ctx : N) (rq : request) (l : list reg)
+    (a : amap) (evs : list event) : option outcome * list event * amap :=
+  match l with
+  | [] => (None, evs, a)
+  | v :: r =>
+      if qualifies rq v then
+        let '(o, ev, a') := run_body P W true deny site (r_tag v) ctx a in
+        match is_pm W o with
+        | Some _ => views_loop P W deny site ctx rq r a' (evs ++ ev)
+        | None => (Some o, evs ++ ev, a')
+        end
+      else views_loop P W deny site ctx rq r a evs
+  end.
+
+Fixpoint comps_loop (P : params) (W : world) (sec deny : bool) (site ctx fpme : N) (rq : request)
+    (l : list component) (pme : option N) (a : amap) (evs : list event) : option outcome * list event * amap :=
+  match l with
+  | [] => (match pme with Some p => Some (Raise p) | None => None end, evs, a)
+  | CView v :: r =>
+      if qualifies rq v || (negb sec && r_secured v && negb (p_perm_checks P)) then
+        let '(o, ev, a') := run_body P W sec deny site (r_tag v) ctx a in
+        match is_pm W o with
+        | Some p => comps_loop P W sec deny site ctx fpme rq r (Some p) a' (evs ++ ev)
+        | None => (Some o, evs ++ ev, a')
+        end
+      else comps_loop P W sec deny site ctx fpme rq r (Some fpme) a evs
+  | CMulti m :: r =>
+      if sec then
+        match views_loop P W deny site ctx rq (map e_view (get_views m rq)) a evs with
+        | (Some o, evs', a') => (Some o, evs', a')
+        | (None, evs', a') => comps_loop P W sec deny site ctx fpme rq r (Some fpme) a' evs'
+        end
+      else
+        match find (qualifies rq) (map e_view (get_views m rq)) with
+        | None => comps_loop P W sec deny site ctx fpme rq r (Some fpme) a evs
+        | Some v =>
+            let '(o, ev, a') := run_body P W sec deny site (r_tag v) ctx a in
+            match is_pm W o with
+            | Some p => comps_loop P W sec deny site ctx fpme rq r (Some p) a' (evs ++ ev)
+            | None => (Some o, evs ++ ev, a')
+            end
+        end
+  end.
+
+Definition iev_pm (P : params) (W : world) (ri : rinfo) (site : N) (rr sec : bool) (e : N) (st : state)
+    : outcome * state :=
+  let '((res, evs), attrs') :=
+    hide_attrs (p_hidden P)
+      (fun a =>
+         let a := set_all (p_set_in P) e a in
+         let rq := exc_request P W ri e in
+         let '(res, evs, a2) :=
+           comps_loop P W sec (ri_deny ri) site e (fresh_pme site) rq
+             (find_views (w_reg W) exc_classifier_id (q_req_sro rq) (q_ctx_sro rq) (q_view_name rq)) None a [] in
+         ((res, evs), a2))
+      (st_attrs st) in
+  let log := st_log st ++ evs in
+  match res with
+  | Some (Raise e2) => (Raise (if rr && isa W (p_iev_catches P) e2 then e else e2), mkSt attrs' log)
+  | None => (Raise (if rr then e else fresh_of_class (p_none_raises P) site), mkSt attrs' log)
+  | Some (Resp r) => (Resp r, mkSt (set_all (p_set_after P) e attrs') log)
+  end.
+
+Definition main_handler_pm (P : params) (W : world) (ri : rinfo) (st : state) : outcome * state :=
+  match ri_root_raise ri with
+  | Some e => (Raise e, st)
+  | None =>
+      let rq := ri_req ri in
+      let '(res, evs, a) :=
+        comps_loop P W true (ri_deny ri) site_main ctx_resource id_h_pme rq
+          (find_views (w_reg W) view_classifier (q_req_sro rq) (q_ctx_sro rq) (q_view_name rq)) None (st_attrs st) [] in
+      (match res with Some o => o | None => Raise id_h_nf end, mkSt a (st_log st ++ evs))
+  end.
+
+(* the three tweens, generic in the two functions above *)
+Definition under_tween_g (W : world) (ri : rinfo) (mh : state -> outcome * state)
+    (ievf : N -> bool -> bool -> N -> state -> outcome * state) (st : state) : outcome * state :=
+  match ri_under ri with
+  | UPass => mh st
+  | URaise e => (Raise e, st)
+  | UCatch rr sec thn =>
+      let '(o, st1) := mh st in
+      let '(o2, st2) :=
+        match o with
+        | Raise e =>
+            if isa W cn_Exception e then
+              let '(o2, st2) := ievf site_under rr sec e st1 in
+              (o2, add_log st2 (EIev e (snap (st_attrs st1)) o2 (snap (st_attrs st2))))
+            else (o, st1)
+        | Resp _ => (o, st1)
+        end in
+      match o2, thn with
+      | Resp _, Some e2 => (Raise e2, st2)
+      | _, _ => (o2, st2)
+      end
+  end.
+
+Definition excview_tween_g (P : params) (W : world)
+    (ievf : N -> bool -> bool -> N -> state -> outcome * state) (o : outcome) (st : state) : outcome * state :=
+  match o with
+  | Resp r => (Resp r, st)
+  | Raise e =>
+      if isa W (p_tween_catches P) e then
+        match ievf site_tween false true e st with
+        | (Resp r, st') => (Resp r, st')
+        | (Raise e2, st') =>
+            if isa W (p_handler_catches P) e2
+            then (Raise (if p_handler_reraises P then e else e2), st')
+            else (Raise e2, st')
+        end
+      else (Raise e, st)
+  end.
+
+Definition run_request_g (P : params) (W : world) (ri : rinfo) (mh : state -> outcome * state)
+    (ievf : N -> bool -> bool -> N -> state -> outcome * state) : list event :=
+  let st0 := mkSt (init_attrs ri) [] in
+  let '(o1, st1) := under_tween_g W ri mh ievf st0 in
+  let st1 := add_log st1 (EProbe o1 (snap (st_attrs st1))) in
+  let '(o2, st2) := excview_tween_g P W ievf o1 st1 in
+  st_log st2 ++ [EFinal o2 (snap (st_attrs st2)) (aget hn_exception (st_attrs st2))].
+
+Definition run_request_pm (P : params) (W : world) (ri : rinfo) : list event :=
+  run_request_g P W ri (main_handler_pm P W ri) (iev_pm P W ri).
+
+(* ------------------------------------------------------------------ *)
 (* the property as an executable judge of an observed trace.
    [sregs]: the registrations the property speaks about (user directives + the default exception-response
    views), [W]: bodies and exception table, [ri]: the request. *)
@@ -471,18 +611,20 @@ Definition judge_winner (W : world) (ri : rinfo) (rr : option bool) (sec : bool)
        end
   else
     match mid with
-    | [EBody t' c s] =>
+    | EBody t' c s :: rest =>
+        let single := match rest with [] => true | _ => false end in
         N.eqb t' t && N.eqb c e && snap_eqb s (seen_snapshot e)
         && match b_act b with
-           | ARet => outcome_eqb o (Resp (RView t)) && snap_eqb after (after_snapshot before e)
+           | ARet => single && outcome_eqb o (Resp (RView t)) && snap_eqb after (after_snapshot before e)
            | ARetCtx =>
                if N.eqb (status_of W e) 0 then true     (* not a response: the property is silent *)
-               else outcome_eqb o (Resp (RExc e)) && snap_eqb after (after_snapshot before e)
+               else single && outcome_eqb o (Resp (RExc e)) && snap_eqb after (after_snapshot before e)
            | ARaise v =>
                (* the view itself failed: its exception is the one that propagates and the attributes are
-                  restored -- except an HTTPNotFound, which the code cannot tell from "no view applies" *)
+                  restored -- except an HTTPNotFound, which the code cannot tell from "no view applies" (a
+                  PredicateMismatch even makes the search go on: further bodies may run) *)
                if isa W cn_HTTPNotFound v then true
-               else snap_eqb after before
+               else single && snap_eqb after before
                     && match rr with
                        | Some true => outcome_eqb o (Raise (if isa W cn_Exception v then e else v))
                        | _ => outcome_eqb o (Raise v)
@@ -555,6 +697,23 @@ Definition judge_gen (tolerant : bool) (sregs : list reg) (W : world) (ri : rinf
   end.
 
 Definition judge := judge_gen false.
+
+(* ------------------------------------------------------------------ *)
+(* executable form of the premises of the lookup theorem (C03's key_order / key_faithful: registrations with the
+   same slot and phash -- overrides -- have the same order and the same predicate texts; no phash collision),
+   evaluated on every generated world so that the evidence says how often the theorem applies *)
+Definition same_key (a b : reg) : bool := slot_eqb (r_slot a) (r_slot b) && text_eqb (r_phash a) (r_phash b).
+Definition key_pair_ok (a b : reg) : bool :=
+  negb (same_key a b)
+  || (Z.eqb (r_order a) (r_order b) && texts_eqb (map pred_phash (r_preds a)) (map pred_phash (r_preds b))).
+Definition key_ok_b (regs : list reg) : bool := forallb (fun a => forallb (key_pair_ok a) regs) regs.
+Fixpoint nodupN (l : list N) : bool := match l with [] => true | x :: r => negb (memN x r) && nodupN r end.
+Definition premises_b (regs : list reg) (W : world) (ri : rinfo) : bool :=
+  key_ok_b regs
+  && forallb (fun v => match r_accept v with None => true | Some _ => false end) regs
+  && forallb (fun v => Nat.leb (n_preds v) 400) regs
+  && nodupN (ri_comb_sro ri) && nodupN (ri_unrouted_sro ri)
+  && forallb (fun x => nodupN (x_sro x)) (w_excs W).
 
 (* ------------------------------------------------------------------ *)
 (* wire glue *)
@@ -663,7 +822,7 @@ Definition event_status_ok (W : world) (v : val) : bool :=
 (* case = [named; [decl ...]; [exc ...]; [rinfo ...]; observed]   observed = [] or [[event ...] per request]
    answer = [[model trace; judge of the model trace; judge of the observed trace (1/0; 2 when none given);
               winners (tags) of the exception arriving at the excview tween in the model;
-              the tolerant judge of the observed trace] per request] *)
+              the tolerant judge of the observed trace; the premises of the judge theorem hold (computed)] per request] *)
 Definition run_C14 (v : val) : val :=
   ret_or_bad (
     match v with
@@ -681,7 +840,7 @@ Definition run_C14 (v : val) : val :=
            let W := mkWorld (register_all accept_order_default (regs_upto code_params names nm decls ph)) bodies excs in
            let SW := mkWorld reg_empty sbodies excs in
            let sregs := regs_upto spec_params names nm decls ph in
-           let tr := run_request code_params W ri in
+           let tr := run_request_pm code_params W ri in
            let arriving := match split_probe tr [] with
                            | Some (_, Raise e, _, _) =>
                                put_tags (spec_winners exc_classifier_id sregs (exc_request spec_params SW ri e))
@@ -704,7 +863,8 @@ Definition run_C14 (v : val) : val :=
                    | None => VI 0
                    end
                | None => VI 2
-               end])
+               end;
+               vbool (premises_b sregs SW ri)])
            (combine (seq 0 (length reqs)) reqs)))
     | _ => None
     end).
